@@ -8,6 +8,8 @@ Mirrors, function by function, crates/trust-runtime/src/retain.rs:
   `decode_snapshot`, `decode_value`, `RetainReader::read_*`          (reader, bounds checked)
   `FileRetainStore::{store, write_bytes, load, read_bytes}`          (save routine as a list of
                                                                       file-system operations)
+  `RetainManager::save_snapshot`                                     (which snapshot reaches the
+                                                                      file: `PartialEq` change detection)
 The tag numbers, the magic, the version and the nesting limit come from
 `Generated/C10Tags.lean`, regenerated from `enum ValueTag` / the constants on every run.
 
@@ -22,7 +24,7 @@ Representation choices (none of them loses information the codec can see):
 The decoder additionally writes a ghost log of every `Vec::with_capacity` request and every
 `depth` argument, so that the allocation and recursion bounds can be stated about it.
 
-Import-free (core Lean only) so that the driver links as a `lean_exe`.
+Imports only the generated table (core Lean otherwise) so that the driver links as a `lean_exe`.
 -/
 namespace TrustVerif.C10
 open Gen
